@@ -1,0 +1,1 @@
+//! Hooks for property C01 (empty unless needed).
